@@ -190,6 +190,7 @@ def check_case(ctx, case):
 TECHNIQUE = "runtime monitoring: online invariant monitor on the live pruning state at every expansion boundary + differential sibling executions (pruned/unpruned/wide) + widening histories"
 LEVEL_TEXT = ("{Q} (quick) / {T} (thorough) generated cases; every expansion window of every real run (~10 per run, incl. non-emitting layers) is "
               "checked online for: expanded set within top-W plus ties, strict max(postponed) < min(expanded), next() only and always on the "
-              "candidates of the current round; plus pruned<=unpruned, wide-enough==unpruned and monotone widening on index and best probability. "
-              "Held-on-observed.")
+              "candidates of the current round; plus pruned<=unpruned (strict for exhaustive configurations; three search heuristics are recorded findings), wide-enough==unpruned, "
+              "monotone widening on index and best probability, and an invariant on the non-emitting filter (a kept candidate is closer than the next observation's candidate, "
+              "postponed or not) that keeps the pruned search space inside the unpruned one. Held-on-observed.")
 LEVEL_NOTE = "Trusted: the monitor's reading of delayed/expand_now (validated against mutants, see selftest). Widths 1..6, traces <= 10 observations."
